@@ -603,7 +603,20 @@ def _b_print(interp, args, kwargs):
     return None
 
 
+def _b_getattr(interp, args, kwargs):
+    obj, name = args[0], mk(args[1])
+    if not isinstance(name, str):
+        raise Unsupported("getattr with a symbolic attribute name")
+    try:
+        return interp.getattr(obj, name)
+    except PyRaise as e:
+        if e.etype == "AttributeError" and len(args) > 2:
+            return args[2]
+        raise
+
+
 BUILTIN_MODELS = {
+    "getattr": _b_getattr,
     "len": _b_len, "str": _b_str, "int": _b_int, "bool": _b_bool, "abs": _b_abs, "ord": _b_ord, "chr": _b_chr,
     "all": _b_all_any(True), "any": _b_all_any(False), "isinstance": _b_isinstance, "sorted": _b_sorted,
     "list": _b_list, "tuple": _b_tuple, "set": _b_set, "dict": _b_dict, "enumerate": _b_enumerate,
